@@ -16,8 +16,8 @@ CLAIMS = {
                     '__presence_test) are proved to return exactly the presence relation. add_interactions_from / add_path / add_star / add_cycle and the '
                     'whole-history statement are covered by the bounded stand-in, hence level other.',
             'note': KERNEL_NOTE},
-    'C02': {'level': 'other', 'technique': 'contract-based deductive verification (pyvc) of number_of_interactions(u,v,t) x2 and has_interaction x2 (modular, against __presence_test); bounded stand-in for the other ~28 entry points',
-            'text': 'Proved for all states: number_of_interactions(u,v,t) is 1 iff the pair is present at t (ever, for t None) else 0, in both modes, and has_interaction likewise. All ~30 query entry points (methods and dn.* forms, nbunch subsets with an unknown node) are compared with networkx on the static graph '
+    'C02': {'level': 'other', 'technique': 'contract-based deductive verification (pyvc) of DynGraph.interactions_iter (seen de-duplication: each interaction once), DynDiGraph.out_interactions_iter, number_of_interactions(u,v,t) x2, has_interaction x2 (modular, against __presence_test); bounded stand-in for the other entry points',
+            'text': 'Proved for all states: the listing generators yield each interaction present at t (ever, for t None) exactly once - undirected: in one orientation, nested loop invariants over the visited set, which the helper dict `seen` is shown to equal; directed out-listing: oriented - with the right third component and without modifying the graph; number_of_interactions(u,v,t) is 1 iff the pair is present at t (ever, for t None) else 0, in both modes, and has_interaction likewise. All ~30 query entry points (methods and dn.* forms, nbunch subsets with an unknown node) are compared with networkx on the static graph '
                     '{(u,v): present at t} for every reachable state of the small scope, every t around the inhabited instants and t=None, both classes, both modes. '
                     'Deviations pinned by the repository tests are listed known findings (D10, D11, D12).',
             'note': KERNEL_NOTE},
@@ -39,7 +39,7 @@ CLAIMS = {
     'C06': {'level': 'other', 'technique': 'contract-based deductive verification (pyvc) of time_slice x2, modular: against the contracts of __init__, add_interaction (caller side) and the flattened iterator; bounded stand-in for slice-of-slice and well-formedness',
             'text': 'time_slice is proved for all graphs and all windows: nested loop invariants (visited-pairs ghost set; interval index with "latest run of H ends before the next interval", which discharges the callee precondition "never rejected" and "e > t"), presence of H = window /\\ presence of G for every pair and instant, nodes = endpoints with attributes of G, G unchanged, H written only through the kernel (typestate), ValueError iff t_to < t_from. Also, for every reachable state of the small scope and every window around its instants: class, presence inside the window, nodes = endpoints with attributes, '
                     'source unchanged, slice well formed (C03/C04/C05 oracles on its own presence), slice of slice = intersection, invalid window raises ValueError.',
-            'note': KERNEL_NOTE + ' ASSUMED (caller side only): the contract of the flattened iterators interactions_iter() / out_interactions_iter() with t=None (each pair once, one orientation, with its edge data).'},
+            'note': KERNEL_NOTE + ' The callee contract of the flattened iterators (interactions_iter() / out_interactions_iter() with t=None) is proved by its own units (contracts/iters.py); its restatement as a bag with an orientation choice is by inspection.'},
     'C07': {'level': 'other', 'technique': 'contract-based deductive verification (pyvc) of add_interaction x2: frame clauses on both exceptional exits; bounded stand-in for bulk helpers and continuations',
             'text': 'On both rejection exits (ValueError, NetworkXError), in both modes, every representation component is proved equal to its pre-value; "legal continuations '
                     'behave as if the call had never been made" then follows from determinism; bulk-helper prefix state and continuations are also exercised by the bounded part.',
